@@ -127,8 +127,8 @@ inductive BoolWord where
 /-- classification of a text by the boolean getter (on the lower-cased copy) -/
 def classifyBool (s : Str) : BoolWord :=
   let l := lower s
-  if l == bs "1" || l == bs "yes" || l == bs "true" then .tt
-  else if l == bs "0" || l.isEmpty || l == bs "no" || l == bs "false" then .ff
+  if l == [0x31] /- "1" -/ || l == [0x79, 0x65, 0x73] /- "yes" -/ || l == [0x74, 0x72, 0x75, 0x65] /- "true" -/ then .tt
+  else if l == [0x30] /- "0" -/ || l.isEmpty || l == [0x6e, 0x6f] /- "no" -/ || l == [0x66, 0x61, 0x6c, 0x73, 0x65] /- "false" -/ then .ff
   else if l == NONE then .nullValue
   else .other
 
@@ -142,8 +142,8 @@ def getBool (s : Str) : Except Err Bool :=
 /-- the text the boolean setter stores -/
 def setBoolText (s : Str) : Except Err Str :=
   let l := lower s
-  if l == bs "1" || l == bs "yes" || l == bs "true" then .ok (bs "true")
-  else if l == bs "0" || l == bs "no" || l == bs "false" then .ok (bs "false")
+  if l == [0x31] /- "1" -/ || l == [0x79, 0x65, 0x73] /- "yes" -/ || l == [0x74, 0x72, 0x75, 0x65] /- "true" -/ then .ok ([0x74, 0x72, 0x75, 0x65] /- "true" -/)
+  else if l == [0x30] /- "0" -/ || l == [0x6e, 0x6f] /- "no" -/ || l == [0x66, 0x61, 0x6c, 0x73, 0x65] /- "false" -/ then .ok ([0x66, 0x61, 0x6c, 0x73, 0x65] /- "false" -/)
   else if l == NONE || s.isEmpty then .ok NONE
   else .error .wrongBooleanValue
 
